@@ -188,11 +188,63 @@ fn check_reset(fmt: u8, ff: usize, lead_words: usize) -> Option<(String, String)
     }
 }
 
+/// The readout-frame views: a two-packet file whose first payload has `n` displayable words and `ff` padding bytes;
+/// every printed row must be the model's decode of a real word at that offset, and no row may come from padding.
+fn check_view(fmt: u8, n: usize, ff: usize, data: bool) -> Option<(String, String)> {
+    use fp_model::stream::Packet;
+    use fp_model::words;
+    let mut ws: Vec<[u8; 10]> = vec![words::ihw(0x1FF), words::data_word(0x21, [0x77; 9])];
+    for i in 2..n.max(2) {
+        ws.push(match i % 5 {
+            0 => words::Tdh { trigger_type: 1 << 4, internal: false, no_data: false, continuation: false, bc: (i % 3564) as u16, orbit: i as u32 }.encode(),
+            1 => words::data_word(0x20 + (i % 9) as u8, [(i & 0xFF) as u8 | 1; 9]),
+            2 => words::Tdt { packet_done: i % 2 == 0, ..Default::default() }.encode(),
+            3 => words::cdw(i as u64, 1),
+            _ => words::Ddw0::default().encode(),
+        });
+    }
+    ws.truncate(n.max(2));
+    let mut pl = payload::pack(&ws, fmt);
+    // `pack` pads format 2 to the 16-byte boundary itself; replace that by exactly `ff` bytes of 0xFF
+    if fmt == 2 {
+        pl.truncate(ws.len() * 10);
+    }
+    pl.extend(std::iter::repeat(0xFF).take(ff));
+    let mut r = Rdh::base();
+    r.data_format = fmt;
+    let a = Packet::framed(r.clone(), pl);
+    let mut r2 = r.clone();
+    r2.pages_counter = 1;
+    r2.stop_bit = 1;
+    let b = Packet::framed(r2, payload::pack(&[words::ihw(0x1FF), words::data_word(0x22, [0x55; 9]), words::Ddw0::default().encode()], fmt));
+    let bytes = fp_model::stream::to_bytes(&[a, b]);
+    let view = if data { "its-readout-frames-data" } else { "its-readout-frames" };
+    let scratch = fp_harness::cli::Scratch::new("c12");
+    let args = vec![scratch.file("in.raw", &bytes).display().to_string(), "view".into(), view.into(), "-d".into()];
+    let run = fp_harness::cli::Run::new(&args).cwd(&scratch.path).run();
+    if run.crashed() || run.status != Some(0) {
+        return Some(("view:failed".into(), format!("exit {:?} signal {:?}: {}", run.status, run.signal, run.stderr_str().chars().take(200).collect::<String>())));
+    }
+    let rows = crate::c19::parse_rows(&run.stdout_str());
+    let want = crate::c19::expected_frame_rows(&bytes, None, data);
+    if rows.len() != want.len() {
+        return Some(("view:row-count".into(), format!("{} rows printed, the payloads hold {} RDHs / words to show", rows.len(), want.len())));
+    }
+    for (i, (g, w)) in rows.iter().zip(want.iter()).enumerate() {
+        if g != w {
+            return Some(("view:row-content".into(), format!("row {i}: printed {:?}, the bytes at that offset decode to {:?}", g, w)));
+        }
+    }
+    None
+}
+
 pub fn run(tier: Tier) -> i32 {
     val::init_process();
     let mut rep = Reporter::new("C12", tier, "exploration");
-    let mut counts: Vec<usize> = (0..=if tier.is_thorough() { 40 } else { 12 }).collect();
-    counts.extend([511, 512, 700]);
+    let mut counts: Vec<usize> = (0..=if tier.is_thorough() { 700 } else { 12 }).collect();
+    if !tier.is_thorough() {
+        counts.extend([511, 512, 700]);
+    }
     let mut cases = Vec::new();
     for fmt in [0u8, 2] {
         for &n in &counts {
@@ -256,10 +308,29 @@ pub fn run(tier: Tier) -> i32 {
             rep.violation(Violation { signature: sig.clone(), description: format!("{d} [format {f}, {k} x 0xFF, {l} lead-in words]"), replay: json!({"kind": "reset", "fmt": f, "ff": k, "lead": l}) });
         }
     }
-    rep.cov("evaluations", json!(cases.len() + vcases.len() + rcases.len()));
+    // the readout-frame views (real CLI): formats x word counts x 0..=15 padding bytes x {frames, frames+data}
+    let mut wcases = Vec::new();
+    let wcounts: Vec<usize> = if tier.is_thorough() { (2..=40).chain([511, 512, 700]).collect() } else { vec![2, 3, 8, 9, 10, 11, 16] };
+    for fmt in [0u8, 2] {
+        for &n in &wcounts {
+            for ff in 0..=15usize {
+                for data in [false, true] {
+                    wcases.push((fmt, n, ff, data));
+                }
+            }
+        }
+    }
+    let r4 = par_map(&wcases, |_, (f, n, k, d)| check_view(*f, *n, *k, *d));
+    for ((f, n, k, d), r) in wcases.iter().zip(r4.iter()) {
+        if let Some((sig, dd)) = r {
+            rep.violation(Violation { signature: sig.clone(), description: format!("{dd} [format {f}, {n} words, {k} x 0xFF, data view: {d}]"), replay: json!({"kind": "view", "fmt": f, "n": n, "ff": k, "data": d}) });
+        }
+    }
+    rep.cov("view_cases", json!(wcases.len()));
+    rep.cov("evaluations", json!(cases.len() + vcases.len() + rcases.len() + wcases.len()));
     rep.cov("distinct_nontrivial", json!(nontrivial));
     rep.cov("exhaustive", json!(true));
-    rep.cov("rule", json!("formats {0,2} x word counts {0..=12 (quick) / 0..=40 (thorough), 511, 512, 700} x 0..=40 trailing 0xFF bytes through preprocess_payload and (x 2 modes) through a real LinkValidator with individually recognisable faulty words; reset after the padding error for 16/17/25/40 bytes x 3 lead-in states x 2 formats. non-trivial = at least one padding byte present"));
+    rep.cov("rule", json!("formats {0,2} x word counts {0..=12, 511, 512, 700 (quick) / every count 0..=700 (thorough)} x 0..=40 trailing 0xFF bytes through preprocess_payload and (x 2 modes) through a real LinkValidator with individually recognisable faulty words; reset after the padding error for 16/17/25/40 bytes x 3 lead-in states x 2 formats; the two readout-frame views through the real CLI for word counts {2,3,8..11,16} (quick) / {2..=40,511,512,700} (thorough) x 0..=15 padding bytes x 2 formats, every printed row compared with the model's decode. non-trivial = at least one padding byte present"));
     rep.sample(json!({"fmt": 2, "words": 3, "ff": 10, "payload_hex": hex(&build_payload(2, 3, 10))}));
     rep.sample(json!({"fmt": 0, "words": 2, "ff": 16, "expect": "one 'Payload error following RDH', no word examined, FSM reset"}));
     rep.assume("word contents do not imitate the other format's padding (a format-2 payload whose bytes 10..15 are all zero is the separate row of C02/known findings)");
@@ -272,6 +343,7 @@ pub fn replay(v: &serde_json::Value) -> i32 {
     let g = |k: &str| r[k].as_u64().unwrap_or(0) as usize;
     let res = match r["kind"].as_str().unwrap() {
         "preprocess" => check_preprocess(g("fmt") as u8, g("n"), g("ff")),
+        "view" => check_view(g("fmt") as u8, g("n"), g("ff"), r["data"].as_bool().unwrap_or(false)),
         "validator" => check_validator(g("fmt") as u8, g("n"), g("ff"), if r["mode"] == "check sanity its" { Mode::SanityIts } else { Mode::AllIts }),
         _ => check_reset(g("fmt") as u8, g("ff"), g("lead")),
     };
